@@ -32,6 +32,9 @@ type nodeCase struct {
 	admitted     map[string]bool         // "v|src|tgt" votes observed inside checkpoints or posted by the node
 	restarted    bool
 	slashSeen    map[string]bool
+	lastRefErr   string
+	ln           *ledgerNames
+	blockTxs     map[string][]*txInfo // block name -> its transactions (coinbase first)
 	delivered    map[string]bool
 	rejected     map[string]bool // delivered only in a deliberately corrupted variant
 	mode         string
@@ -43,7 +46,7 @@ func (nc *nodeCase) emit(op, res string) { nc.c.Op(op, res) }
 func newNodeCase(c *Ctx, mode string, E uint64, nVal, local int, pend uint64) *nodeCase {
 	env := newNodeEnv(E, nVal, local, pend)
 	nc := &nodeCase{c: c, env: env, nm: newNamer(), delivered: map[string]bool{}, rejected: map[string]bool{}, mode: mode,
-		finalEver: map[string]bool{"b0": true}, recvValid: map[string]map[int]bool{}, justSeen: map[string]bool{"b0": true}, admitted: map[string]bool{}, slashSeen: map[string]bool{}}
+		finalEver: map[string]bool{"b0": true}, recvValid: map[string]map[int]bool{}, justSeen: map[string]bool{"b0": true}, admitted: map[string]bool{}, slashSeen: map[string]bool{}, ln: newLedgerNames(), blockTxs: map[string][]*txInfo{}}
 	env.useOutsiderKey()
 	ref, err := newNode(env, nil)
 	if err != nil {
@@ -67,6 +70,8 @@ func newNodeCase(c *Ctx, mode string, E uint64, nVal, local int, pend uint64) *n
 	return nc
 }
 
+func (nc *nodeCase) ledgerMode() bool { return nc.mode == "ledger" || nc.mode == "rules" }
+
 func (nc *nodeCase) close() {
 	nc.ref.close()
 	nc.sut.close()
@@ -74,13 +79,21 @@ func (nc *nodeCase) close() {
 
 func (nc *nodeCase) dump(res string) string {
 	n := nc.sut
-	return strings.Join([]string{"res=" + res, n.dumpStored(nc.nm), n.dumpChain(nc.nm, nc.maxH), n.dumpOrphans(nc.nm), n.dumpCasper(nc.nm)}, " ")
+	parts := []string{"res=" + res, n.dumpStored(nc.nm), n.dumpChain(nc.nm, nc.maxH), n.dumpOrphans(nc.nm), n.dumpCasper(nc.nm)}
+	if nc.ledgerMode() {
+		parts = append(parts, n.dumpUtxo(nc.ln), n.dumpContracts(nc.ln))
+	}
+	return strings.Join(parts, " ")
 }
 
 // defBlock creates a valid child of `parent` on the reference node and tells the model
 // about it. Returns "" when the reference node rejects the block (should not happen for
 // generator-made blocks; counted).
-func (nc *nodeCase) defBlock(parent string, slotSkip uint64, arb byte, txs []*types.Tx) string {
+func (nc *nodeCase) defBlock(parent string, slotSkip uint64, arb byte, txInfos []*txInfo) string {
+	var txs []*types.Tx
+	for _, ti := range txInfos {
+		txs = append(txs, ti.tx)
+	}
 	p := nc.nm.blocks[parent]
 	ph := p.Hash()
 	nc.env.useOutsiderKey()
@@ -97,15 +110,39 @@ func (nc *nodeCase) defBlock(parent string, slotSkip uint64, arb byte, txs []*ty
 	nc.env.useLocalKey()
 	if r.String() != "ok" {
 		nc.c.Count("ref-rejected-generated-block")
+		nc.lastRefErr = fmt.Sprint(r.err, r.panic)
 		return ""
 	}
+	return nc.registerBlock(parent, b, arb, txInfos)
+}
+
+// registerBlock names a block (and its coinbase outputs) and tells the model about it.
+func (nc *nodeCase) registerBlock(parent string, b *types.Block, arb byte, txInfos []*txInfo) string {
 	name := fmt.Sprintf("b%d", len(nc.nm.order))
 	nc.nm.add(name, b)
 	if b.Height > nc.maxH {
 		nc.maxH = b.Height
 	}
 	slot := (b.Timestamp - nc.nm.blocks["b0"].Timestamp) / nodeInterval
-	nc.emit(fmt.Sprintf("def %s parent=%s h=%d slot=%d rank=%d arb=%d", name, parent, b.Height, slot, rank(b.Hash()), arb), "ok")
+	op := fmt.Sprintf("def %s parent=%s h=%d slot=%d rank=%d arb=%d", name, parent, b.Height, slot, rank(b.Hash()), arb)
+	if nc.ledgerMode() {
+		kinds := make([]byte, len(b.Transactions[0].Outputs))
+		for i := range kinds {
+			kinds[i] = 'n'
+		}
+		cb := nc.ln.addTx(b.Transactions[0], nil, kinds, true)
+		all := append([]*txInfo{cb}, txInfos...)
+		nc.blockTxs[name] = all
+		var lines []string
+		for _, ti := range all {
+			for _, o := range ti.outs {
+				nc.ln.outs[o].block = name
+			}
+			lines = append(lines, nc.ln.txLine(ti))
+		}
+		op += " txs=" + strings.Join(lines, "|")
+	}
+	nc.emit(op, "ok")
 	return name
 }
 
@@ -550,6 +587,8 @@ func runNode(c *Ctx) {
 	}
 	for i := 0; i < c.N; i++ {
 		switch mode {
+		case "ledger":
+			genCaseLedger(c, mode)
 		default:
 			genCaseTree(c, mode)
 		}
